@@ -23,9 +23,10 @@ Definition zskipn (off : Z) (l : list Z) : list Z :=
   if zlen l <=? off then [] else skipn (Z.to_nat off) l.
 
 (* struct_parse(struct, stream, stream_pos=off): seek + parse; a short read is ELFParseError;
-   seek to a negative offset is a ValueError of BytesIO *)
+   a position the stream cannot seek to (negative: ValueError of BytesIO) is reported as
+   ELFParseError too (common/utils.py struct_parse) *)
 Definition struct_parse_at (L : layout) (img : list Z) (off : Z) : res entry :=
-  if off <? 0 then Err (EPy "ValueError")
+  if off <? 0 then Err EParse
   else match decode_layout L (zskipn off img) with
        | Some (r, _) => Ok r
        | None => Err EParse
@@ -151,8 +152,8 @@ Definition splice (s : list Z) (off : nat) (bs : list Z) : list Z :=
 
 (* struct_parse(value_struct, stream, stream_pos=r_offset): n bytes, unsigned, file byte order *)
 Definition read_value (le : bool) (n : nat) (stream : list Z) (off : Z) : res Z :=
-  if off <? 0 then Err (EPy "ValueError")
-  else if 2 ^ 63 <=? off then Err (EPy "OverflowError")      (* BytesIO.seek: position must fit a ssize_t *)
+  if off <? 0 then Err EParse
+  else if 2 ^ 63 <=? off then Err EParse      (* BytesIO.seek: position must fit a ssize_t; struct_parse wraps the OverflowError *)
   else match take n (zskipn off stream) with
        | Some (a, _) => Ok (int_decode le a)
        | None => Err EParse
